@@ -86,17 +86,22 @@ def run(tier, seed):
                 elif name == "jump":
                     vals = [mag * off] * (n // 2) + vals[n // 2:]
                 w, e = WelfordTracker(), ExponentialSmoothingTracker(alpha=2.0 ** -10)
-                S = S2 = es = Fraction(0)
-                a = Fraction(1, 1024)
+                # exact reference in fixed point (unit 2^-1200: every finite double is an integer multiple); the smoothing
+                # recursion is floored to that unit in every step (absolute error < n * 2^-1200)
+                SH = 1200
+                Si = S2i = esi = 0
                 for v in vals:
                     w.update(v)
                     e.update(v)
-                    fv = Fraction(v)
-                    S += fv
-                    S2 += fv * fv
-                    es = (1 - a) * es + a * fv
-                mean, mx = S / n, max(abs(v) for v in vals)
-                var = S2 / n - mean * mean
+                    num, den = v.as_integer_ratio()
+                    vi = (num << SH) // den
+                    Si += vi
+                    S2i += vi * vi
+                    esi = (1023 * esi + vi) >> 10
+                unit = Fraction(1, 1 << SH)
+                mean, mx = Fraction(Si, n) * unit, max(abs(v) for v in vals)
+                var = (Fraction(S2i, n) - Fraction(Si, n) ** 2) * unit * unit
+                es = esi * unit
                 gm, gv, gs, ge = float(w.mean), float(w.var), float(w.std), float(e.get())
                 probs = []
                 if not all(map(math.isfinite, (gm, gv, gs, ge))):
